@@ -61,8 +61,13 @@ impl<C: Config, Q: Query> Snapshot<C, Q> {
             None
         };
 
+        // a caller that is already known to be on a cycle gets `CyclicError`
+        // for this read: the value it would observe is not what its result
+        // depends on, so no observation is recorded (a later repair then
+        // recomputes instead of comparing fingerprints)
         if let Some(query_caller) = caller.get_query_caller()
             && query_caller.require_value()
+            && !query_caller.computing().is_in_scc()
         {
             let kind = self.query_kind().await.unwrap();
 
